@@ -102,6 +102,9 @@ type Ctx struct {
 	// property: they are recorded but do not end the run, so that the other
 	// invariants keep being checked.
 	Known map[string]bool
+	// NonTrivial lets a scenario without scheduling or faults (a clocked
+	// process) state its own non-triviality rule for the evidence count.
+	NonTrivial bool
 }
 
 // Fail records a violation (the first one per fingerprint).
@@ -155,23 +158,24 @@ func Register(s *Scenario) { Scenarios[s.ID] = s }
 
 // Result of one run.
 type Result struct {
-	Viols     []Violation       `json:"violations,omitempty"`
-	LogHash   uint64            `json:"log_hash"`
-	SchedFP   uint64            `json:"sched_fp"`
-	Steps     uint64            `json:"steps"`
-	Yields    uint64            `json:"yields"`
-	Switches  int               `json:"switches"`
-	Preempts  int               `json:"preempts"`
-	SimTimeNs int64             `json:"sim_time_ns"`
-	Faults    map[string]int    `json:"faults,omitempty"`
-	Probes    map[string]int    `json:"probes,omitempty"`
-	Aborted   string            `json:"aborted,omitempty"`
-	Panics    []string          `json:"panics,omitempty"`
-	Tape      map[string][]int  `json:"tape,omitempty"`
-	OpsDone   int               `json:"ops_done"`
-	States    map[uint64]struct{} `json:"-"`
-	Ring      []string          `json:"ring,omitempty"`
-	Leaked    bool              `json:"leaked,omitempty"`
+	Viols      []Violation         `json:"violations,omitempty"`
+	LogHash    uint64              `json:"log_hash"`
+	SchedFP    uint64              `json:"sched_fp"`
+	Steps      uint64              `json:"steps"`
+	Yields     uint64              `json:"yields"`
+	Switches   int                 `json:"switches"`
+	Preempts   int                 `json:"preempts"`
+	SimTimeNs  int64               `json:"sim_time_ns"`
+	Faults     map[string]int      `json:"faults,omitempty"`
+	Probes     map[string]int      `json:"probes,omitempty"`
+	Aborted    string              `json:"aborted,omitempty"`
+	Panics     []string            `json:"panics,omitempty"`
+	Tape       map[string][]int    `json:"tape,omitempty"`
+	OpsDone    int                 `json:"ops_done"`
+	States     map[uint64]struct{} `json:"-"`
+	Ring       []string            `json:"ring,omitempty"`
+	Leaked     bool                `json:"leaked,omitempty"`
+	NonTrivial bool                `json:"-"`
 }
 
 // RunOne executes one case under one tape inside a fresh bubble.
@@ -217,6 +221,7 @@ func RunOne(t *testing.T, scn *Scenario, cs *Case, tape *simrt.Tape, tier string
 		res.Panics = s.Panics
 		res.Tape = tape.Export()
 		res.OpsDone = ctx.OpsDone
+		res.NonTrivial = ctx.NonTrivial
 		res.States = ctx.States
 		res.Ring = s.Ring
 	})
@@ -281,31 +286,31 @@ func LoadKnown(path string) map[string]KnownFinding {
 // Worker ---------------------------------------------------------------------
 
 type WorkerOut struct {
-	Property    string           `json:"property"`
-	Seed        uint64           `json:"seed"`
-	From, To    uint64           `json:"-"`
-	Runs        int              `json:"runs"`
-	Nontrivial  []uint64         `json:"nontrivial_fps"`
-	SchedFPs    int              `json:"distinct_sched"`
-	States      []uint64         `json:"state_fps"`
-	Steps       uint64           `json:"steps"`
-	Yields      uint64           `json:"yields"`
-	Switches    int              `json:"switches"`
-	Preempts    int              `json:"preempts"`
-	SimTimeNs   int64            `json:"sim_time_ns"`
-	Faults      map[string]int   `json:"faults"`
-	Probes      map[string]int   `json:"probes"`
-	Aborted     map[string]int   `json:"aborted"`
-	Leaked      int              `json:"leaked"`
-	KnownSeen   map[string]int   `json:"known_seen"`
-	Violations  int              `json:"violations"`
-	FirstReplay string           `json:"first_replay,omitempty"`
-	FirstFP     string           `json:"first_fp,omitempty"`
-	Panics      []string         `json:"panics,omitempty"`
-	Samples     []map[string]any `json:"samples"`
-	WallS       float64          `json:"wall_s"`
-	Variants    map[string]int   `json:"variants"`
-	AllFPs      map[string]int   `json:"all_fps,omitempty"`
+	Property    string            `json:"property"`
+	Seed        uint64            `json:"seed"`
+	From, To    uint64            `json:"-"`
+	Runs        int               `json:"runs"`
+	Nontrivial  []uint64          `json:"nontrivial_fps"`
+	SchedFPs    int               `json:"distinct_sched"`
+	States      []uint64          `json:"state_fps"`
+	Steps       uint64            `json:"steps"`
+	Yields      uint64            `json:"yields"`
+	Switches    int               `json:"switches"`
+	Preempts    int               `json:"preempts"`
+	SimTimeNs   int64             `json:"sim_time_ns"`
+	Faults      map[string]int    `json:"faults"`
+	Probes      map[string]int    `json:"probes"`
+	Aborted     map[string]int    `json:"aborted"`
+	Leaked      int               `json:"leaked"`
+	KnownSeen   map[string]int    `json:"known_seen"`
+	Violations  int               `json:"violations"`
+	FirstReplay string            `json:"first_replay,omitempty"`
+	FirstFP     string            `json:"first_fp,omitempty"`
+	Panics      []string          `json:"panics,omitempty"`
+	Samples     []map[string]any  `json:"samples"`
+	WallS       float64           `json:"wall_s"`
+	Variants    map[string]int    `json:"variants"`
+	AllFPs      map[string]int    `json:"all_fps,omitempty"`
 	AllFPFirst  map[string]uint64 `json:"all_fp_first,omitempty"`
 }
 
@@ -349,7 +354,7 @@ func Worker(t *testing.T, scn *Scenario, seed, from, to uint64, tier, outPath, r
 			states[s] = struct{}{}
 		}
 		sfp[res.SchedFP] = struct{}{}
-		if (nf > 0 || res.Preempts > 0 || res.Switches > 2) && res.OpsDone >= 3 {
+		if (nf > 0 || res.Preempts > 0 || res.Switches > 2 || res.NonTrivial) && res.OpsDone >= 3 {
 			nt[cs.Hash()^res.SchedFP*0x9E3779B97F4A7C15] = struct{}{}
 		}
 		if len(out.Samples) < 2 && res.OpsDone >= 3 {
